@@ -194,6 +194,8 @@ def main() -> int:
     if args.only:
         batches = [b for b in batches if re.search(args.only, b["label"])]
     for b in batches:
+        if b.get("exact") and args.scale >= 1.0:
+            continue  # enumerations are never scaled up
         b["n_runs"] = max(1, int(b["n_runs"] * args.scale))
         b["budget_s"] = b.get("budget_s", 600) * max(1.0, args.scale)
     nworkers = max(1, args.workers)
